@@ -92,6 +92,12 @@ func main() {
 		wlEnt[i] = r.Entropy()
 	}
 
+	rounds := 6
+	if secs > 20 {
+		rounds = 40
+	}
+	firstUse(g, rounds)
+
 	deadline := time.Now().Add(time.Duration(secs) * time.Second)
 	var wg sync.WaitGroup
 	workers := 8 + g.intn(9)
@@ -193,4 +199,91 @@ func main() {
 	}
 	fmt.Printf("ok workers=%d calls=%d seconds=%d shared: %d char recipes, %d wordlist recipes, 2 word lists, %d separator functions\n",
 		workers, calls, secs, len(charRecipes), len(wlRecipes), len(seps)-1)
+}
+
+// firstUse: values that NO call has touched before the goroutines start — anything the library
+// computes lazily on first use is computed under concurrency. Per round: a fresh word list (with
+// entries capitalisation leaves unchanged, large enough for a scan to take a while), fresh recipes
+// of every capitalisation scheme on it, a fresh character recipe and a fresh separator function;
+// reference values come from independently constructed twins evaluated sequentially.
+func firstUse(g *rng, rounds int) {
+	for round := 0; round < rounds; round++ {
+		n := 2000 + g.intn(40000)
+		words := make([]string, 0, n+3)
+		for i := 0; i < n; i++ {
+			words = append(words, "w"+strconv.Itoa(i)+"x")
+		}
+		words = append(words, "7up", "Élan", "-dash")
+		mk := func() (*spg.WordList, []*spg.WLRecipe, *spg.CharRecipe, spg.SFFunction) {
+			wl, err := spg.NewWordList(append([]string(nil), words...))
+			if err != nil {
+				fmt.Println("FAIL NewWordList:", err)
+				os.Exit(1)
+			}
+			cr := &spg.CharRecipe{Length: 40 + round%5, Allow: spg.Letters | spg.Digits, RequireSets: []string{"abc", "cde", "123"}, ExcludeChars: "e"}
+			sf := spg.NewSFFunction(spg.CharRecipe{Length: 1 + round%2, Allow: spg.Digits, Exclude: spg.Ambiguous})
+			var rs []*spg.WLRecipe
+			for _, c := range []spg.CapScheme{spg.CSRandom, spg.CSOne, spg.CSNone, spg.CSFirst, spg.CSAll} {
+				r := spg.NewWLRecipe(3+round%3, wl)
+				r.Capitalize = c
+				r.SeparatorFunc = sf
+				rs = append(rs, r)
+			}
+			return wl, rs, cr, sf
+		}
+		_, twin, twinCR, _ := mk()
+		want := make([]float32, len(twin))
+		for i, r := range twin {
+			want[i] = r.Entropy()
+		}
+		wantCR := twinCR.Entropy()
+		wantAlpha := twinCR.Alphabet()
+		wl, rs, cr, _ := mk()
+		start := make(chan struct{})
+		var wg sync.WaitGroup
+		for w := 0; w < 12; w++ {
+			wg.Add(1)
+			w := w
+			go func() {
+				defer wg.Done()
+				defer func() {
+					if r := recover(); r != nil {
+						fail("panic in first-use worker: %v", r)
+					}
+				}()
+				<-start
+				for k := 0; k < 3; k++ {
+					i := (w + k) % len(rs)
+					if w%2 == 0 {
+						if e := rs[i].Entropy(); e != want[i] {
+							fail("first use, wl recipe (scheme %q): Entropy() %v, a sequentially evaluated twin gives %v", rs[i].Capitalize, e, want[i])
+						}
+					} else {
+						p, err := rs[i].Generate()
+						if err != nil {
+							fail("first use, wl recipe: %v", err)
+						} else if p.Entropy != want[i] {
+							fail("first use, wl recipe (scheme %q): password entropy %v, a sequentially evaluated twin gives %v", rs[i].Capitalize, p.Entropy, want[i])
+						}
+					}
+					if int(wl.Size()) != n+3 {
+						fail("first use: Size() = %d, want %d", wl.Size(), n+3)
+					}
+					if e := cr.Entropy(); e != wantCR {
+						fail("first use, char recipe: Entropy() %v vs %v", e, wantCR)
+					}
+					if a := cr.Alphabet(); a != wantAlpha {
+						fail("first use, char recipe: Alphabet() %q vs %q", a, wantAlpha)
+					}
+					if p, err := cr.Generate(); err != nil || p.Entropy != wantCR {
+						fail("first use, char recipe: Generate: %v", err)
+					}
+					_ = cr.SuccessProbability()
+				}
+			}()
+		}
+		close(start)
+		wg.Wait()
+		calls += 12 * 3 * 5
+	}
 }
